@@ -484,9 +484,12 @@ class SymEx:
             self.dyn.pop(len(self.frames), None)
             self.frames.pop()
         for key in made:
+            lf_ = self.closures[key][0]
             for s_, oc_ in res:
-                if s_.exc is None:
-                    self.closures[key][2] = dict(s_.env)      # closures see the final values of the enclosing function's variables
+                # closures see the final values of the enclosing function's variables - on the path that created them (the function object is bound in that path's
+                # variables, or is what that path returns)
+                if s_.exc is None and (any(v_ is lf_ for v_ in s_.env.values()) or (oc_ is not None and oc_[0] == 'return' and oc_[1] is lf_)):
+                    self.closures[key][2] = dict(s_.env)
         out = []
         for s, oc in res:
             if s.exc is not None:
